@@ -1,0 +1,24 @@
+//go:build verif
+// +build verif
+
+package watch
+
+import "github.com/fsnotify/fsnotify"
+
+// Simulator access to a Watcher. Only compiled with the `verif` build tag.
+
+// VerifRebind re-creates the watcher's own channels (inside the simulator's bubble).
+func (w *Watcher) VerifRebind() {
+	w.finished = make(chan struct{})
+	w.closed = make(chan struct{})
+}
+
+// VerifPaths returns the paths selected by the include/exclude patterns.
+func (w *Watcher) VerifPaths() []string {
+	return append([]string(nil), w.paths...)
+}
+
+// VerifEvents returns the fsnotify event channel the watcher polls.
+func (w *Watcher) VerifEvents() chan fsnotify.Event {
+	return w.fsw.Events
+}
